@@ -684,11 +684,38 @@ func (x *Exec) external(st *State, fn *ssa.Function, args []Value, site string) 
 func (x *Exec) builderLen(st *State, p Ptr) *Term {
 	v := x.load(st, p)
 	if sv, ok := v.(StructV); ok {
-		if s, ok2 := sv.F[0].(Scalar); ok2 {
+		if s, ok2 := sv.F[0].(Scalar); ok2 && s.T.S.Kind == 1 && s.T.S.W == 64 {
+			if s.T.Op == "var" {
+				// a havocked counter (loop modifies clause): still the length of a real builder
+				st.Assume = append(st.Assume, cmp("bvult", s.T, Const(64, 1<<40)))
+			}
 			return s.T
 		}
+		if isZeroValue(sv.F[0]) {
+			return Const(64, 0)
+		}
+		// havocked builder (e.g. by a loop's modifies clause): an unknown length
+		n := x.freshVar("builderlen", BV(64))
+		st.Assume = append(st.Assume, cmp("bvult", n, Const(64, 1<<40)))
+		nv := StructV{F: append([]Value(nil), sv.F...)}
+		nv.F[0] = Scalar{n}
+		x.store(st, p, nv)
+		return n
 	}
 	return Const(64, 0)
+}
+
+// isZeroValue: the zero value of a pointer / reference field
+func isZeroValue(v Value) bool {
+	switch vv := v.(type) {
+	case Ptr:
+		return vv.Obj == nil
+	case RefV:
+		return vv.T.IsConst() && vv.T.Val == 0
+	case nil:
+		return true
+	}
+	return false
 }
 func (x *Exec) builderSet(st *State, p Ptr, n *Term) {
 	v := x.load(st, p).(StructV)
